@@ -616,6 +616,44 @@ def _order(check: Check, impls):
     check.ob('R-ORDER.get-clients', gc, f'{ci.name}.get_clients', ok, 'clients are produced by one pass over the requested ids, in request order')
     shuffled_stream(check, ci, 'R-ORDER.shuffled')
   sorted_ids_rule(check, 'R-ORDER.sorted')
+  subset_ids_are_a_set(check, 'R-DERIVE.set')
+
+
+def subset_ids_are_a_set(check: Check, rule: str):
+  """SubsetFederatedData keeps its ids in a set on every path (duplicates in the given ids collapse, membership tests are exact)."""
+  repo = check.repo
+  init = repo.cls(FD, 'SubsetFederatedData').method('__init__')
+  ff = FuncFlow.of(repo, init)
+  check.analysed(init)
+  p_ids = init.positional_params[2]
+  stores = [nd.ast for nd in ff.cfg.nodes if nd.kind == 'stmt' and isinstance(nd.ast, ast.Assign) and txt(nd.ast.targets[0]) == 'self._client_ids']
+  ok = bool(stores)
+  why = []
+  for st in stores:
+    v = st.value
+    if isinstance(v, ast.Call) and ff.ext(v.func) in ('builtins.set', 'builtins.frozenset'):
+      continue
+    if isinstance(v, ast.Name):
+      for d in ff.defs_for(v):
+        if d.kind == 'param':
+          # the parameter itself may reach the store only when it already is a set: an unconditional
+          # `if not isinstance(ids, set): ids = set(ids)` before it
+          conv = [nd.ast for nd in ff.cfg.nodes if nd.kind == 'if' and any(
+              isinstance(c, ast.Call) and ff.ext(c.func) == 'builtins.isinstance' and c.args and isinstance(c.args[0], ast.Name) and c.args[0].id == p_ids
+              for c in ast.walk(nd.ast.test))]
+          uncond = [c for c in conv if not guards_of(ff, c, implied=False) and wmean._loop_of(ff, c) is None]
+          if not uncond:
+            ok = False
+            why.append('the conversion to a set is missing or conditional')
+        elif not (isinstance(d.value, ast.Call) and ff.ext(d.value.func) in ('builtins.set', 'builtins.frozenset')):
+          ok = False
+          why.append(f'{txt(d.value)[:40]} is not a set')
+    else:
+      ok = False
+      why.append(f'{txt(v)[:40]} is not a set')
+  check.ob(rule, init, 'self._client_ids is a set on every path', ok,
+           'the ids of a subset view are a set whatever the options (e.g. validate=False): a list with duplicates would list a client twice and '
+           'a sampler could return it twice in one round' + (': ' + '; '.join(why) if why else ''))
 
 
 def sorted_ids_rule(check: Check, rule: str):
